@@ -48,6 +48,13 @@ structure Arg where
   num : Nat := 0
   text : Str := []
 
+/-- a `str` expression with row `r` -/
+def strArg (r : Row) : Arg := { kind := .str, row := r }
+/-- `re.compile(..)` with row `r` -/
+def patArg (r : Row) : Arg := { kind := .pat, row := r }
+/-- the `BaseCfgLine` with `linenum = n`, `text = txt`; `r` = row of `txt` used as an expression -/
+def lineArg (r : Row) (n : Nat) (txt : Str) : Arg := { kind := .line, row := r, num := n, text := txt }
+
 /-- the first positional argument: one expression, a list, or a tuple -/
 inductive First
   | one (a : Arg)
@@ -237,5 +244,63 @@ def reSearchChildrenObjF (t : T) (p : Nat) (a : Arg) (o : Opts) : Except FErr (L
   else if !rxOk a.kind then
     (if (offspring t o.rec_ p).isEmpty then .ok [] else .error .typeError)
   else .ok (reSearchChildren t p a.row o.rec_)
+
+/-! ### `find_object_branches(regex_groups=True)` -/
+
+/-- an item of a cell: `None`, a line object, or the text of a capture group -/
+inductive Item
+  | none
+  | line (i : Nat)
+  | str (s : Str)
+deriving Repr, DecidableEq
+
+/-- a cell of a `regex_groups=True` row: a tuple or a list of items -/
+structure Cell where
+  isTuple : Bool
+  items : List Item
+deriving Repr, DecidableEq
+
+/-- `re.search(branchspec[idx], text).groups()` — `none`: no match; a group that did not
+participate is `none` inside the list -/
+abbrev Groups := Option (List (Option Str))
+/-- the group oracle: per expression, per line of the config -/
+abbrev GroupTable := List (List Groups)
+
+def groupsAt (g : GroupTable) (idx i : Nat) : Groups := (g.getD idx []).getD i none
+
+/-- a capture group as an item of a cell -/
+def itemOf : Option Str → Item
+  | none => .none
+  | some s => .str s
+
+/-- the body of `for idx, element in enumerate(row)` -/
+def cellOf (g : GroupTable) (idx : Nat) (el : Option Nat) : Cell :=
+  match el with
+  | none => ⟨true, [.none]⟩                       -- return_row[idx] = (None,)
+  | some i =>
+    match groupsAt g idx i with
+    | none => ⟨false, [.none]⟩                    -- [None,] (needs regex_flags; not generated)
+    | some [] => ⟨false, [.line i]⟩               -- no capture groups: [element,]
+    | some gs => ⟨true, gs.map itemOf⟩
+
+/-- `Branch.__init__`: `if isinstance(ii, list): self.data[idx] = tuple(ii)` -/
+def branchInit (c : Cell) : Cell := { c with isTuple := true }
+
+/-- `Branch(return_row)` for one grown branch -/
+def rowCells (g : GroupTable) (b : Branch) : List Cell :=
+  ((List.range b.length).zip b).map (fun ie => branchInit (cellOf g ie.1 ie.2))
+
+/-- `find_object_branches(branchspec, regex_groups=True, empty_branches, reverse)`: every grown
+branch (complete or padded with `None`) becomes a row of cells.  The later
+`any(ii is None for ii in branch)` looks at cells — tuples and lists, never `None` — so it discards
+nothing: `empty_branches=False` has no effect (finding FC04f). -/
+def findObjectBranchesGroups (t : T) (rs : List Row) (g : GroupTable) (_emp rev pend : Bool) :
+    Except FErr (List (List Cell)) :=
+  if pend then .error .notImplementedError
+  else match findObjectBranches t rs true false with
+    | .error e => .error (FErr.ofSearch e)
+    | .ok bs =>
+      let m := bs.map (rowCells g)
+      .ok (if rev then m.reverse else m)
 
 end Ccp.SearchForms
